@@ -216,6 +216,13 @@ def run_table (case, rep):
   blob = DELETE_ALL
   for i, e in enumerate(entries):
     blob += flow_mod_bytes(e["match"], e["priority"], 1 + i, cookie=i)
+  # some of the entries are taken out again before the lookups (strict
+  # delete): what is left must still be searched in rank order
+  removed = set(case.get("removed", []))
+  for i in sorted(removed):
+    blob += flow_mod_bytes(entries[i]["match"], entries[i]["priority"], None,
+                           command=4)
+  if removed: rep.count("tables_with_removals")
   sw.feed(blob)
   err = sw.take_bytes()
   if err:
@@ -225,9 +232,10 @@ def run_table (case, rep):
   for probe in case["probes"]:
     raw = probe["frame"]; in_port = probe["in_port"]
     f = OM.extract(raw, in_port)
-    matching = [i for i, e in enumerate(entries) if OM.matches(e["match"], f)]
-    if matching != [i for i, e in enumerate(entries)
-                    if OM.matches_frame_based(e["match"], f)]:
+    matching = [i for i, e in enumerate(entries) if i not in removed
+                and OM.matches(e["match"], f)]
+    if matching != [i for i, e in enumerate(entries) if i not in removed
+                    and OM.matches_frame_based(e["match"], f)]:
       rep.count("ambiguous_not_judged")
       continue
     exact = [i for i in matching if OM.is_exact(entries[i]["match"])]
@@ -325,7 +333,11 @@ def gen_table (rng, n, maxn):
         probes.append(dict(frame=raw, in_port=in_port))
     raw, desc = framegen.gen_frame(rng)
     probes.append(dict(frame=raw, in_port=IN_PORTS[0]))
-    yield dict(kind="table", entries=entries, probes=probes)
+    case = dict(kind="table", entries=entries, probes=probes)
+    if len(entries) >= 3 and rng.random() < 0.4:
+      case["removed"] = sorted(rng.sample(range(len(entries)),
+                                          rng.randrange(1, max(2, len(entries) // 2))))
+    yield case
 
 
 def plan (tier, seed):
